@@ -418,14 +418,18 @@ fn type_intersection_of_tuples(a: Vec<TyTupleField>, b: Vec<TyTupleField>) -> Ty
             (None, None) => break,
             (None, Some(b_field)) => {
                 if !a_has_other {
-                    todo!();
+                    // The relations have a different number of columns. This is
+                    // reported (with a span) when the lineage of the transform is
+                    // inferred, so just stop at the common prefix here.
+                    break;
                 }
                 has_other = true;
                 fields.push(TyTupleField::Single(b_field.0, b_field.1));
             }
             (Some(a_field), None) => {
                 if !b_has_other {
-                    todo!();
+                    // see above
+                    break;
                 }
                 has_other = true;
                 fields.push(TyTupleField::Single(a_field.0, a_field.1));
